@@ -27,6 +27,7 @@ GRIDS = {
     "2dm": [[0, 0], [2, 2], [3, 0], [3, 3], [4, 0]],
 }
 LP_QUICK = ["eg0", "ucb", "lucb"]
+LP_QUICK_SHORT = ["sm", "ts"]        # quick tier: tuples of at most two stored rows for these (all of them in the thorough tier)
 LP_THOROUGH = ["eg0", "ucb", "lucb", "lg", "sm", "ts", "eg5"]
 NO_NHOOD = [None, [1, 0], [0, 1], [0.25, 0.75]]
 
@@ -45,9 +46,10 @@ def meta(tier, seed):
                              "thorough": ["1d n<=4", "2d9 n<=3", "2d6 n<=3 (all arm assignments)", "2dm n<=3",
                                           "policies beyond eg0/ucb/lucb: n<=2 on 1d and 2d6"]}[tier],
                    "metrics": METRICS, "radii": "every distance value occurring in the grid (euclidean: math.sqrt of the squared distance), at most 6", "k": "1..n",
-                   "policies": LP_QUICK if tier == "quick" else LP_THOROUGH, "rewards": "row i rewarded 2^i (binary i%2 for Thompson)",
+                   "policies": (LP_QUICK + ["%s (n<=2 on 1d, 2d6)" % x for x in LP_QUICK_SHORT]) if tier == "quick" else LP_THOROUGH, "rewards": "row i rewarded 2^i (binary i%2 for Thompson)",
                    "earlier_life": "a third of the bandits first live another life (fit on other rows, a query) before the history, "
-                                   "get float64 contexts and answer a query between any two training calls"},
+                                   "get float64 contexts and answer a query between any two training calls",
+                   "n_jobs": "a third of the bandits answer with n_jobs = 2 (joblib model, default schedule), the others with 1"},
         "assumptions": ["metrics whose distances are irrational on the grid are not checked at the boundary",
                         "the learning policy's own arithmetic is C01/C02's subject; here it is the reference"],
     }
@@ -55,7 +57,7 @@ def meta(tier, seed):
 
 def shards(tier, seed):
     out = []
-    lps = LP_QUICK if tier == "quick" else LP_THOROUGH
+    lps = LP_QUICK + LP_QUICK_SHORT if tier == "quick" else LP_THOROUGH
     grids = [("1d", 3), ("2d6", 3), ("2dm", 2)] if tier == "quick" else [("1d", 4), ("2d9", 3), ("2d6", 3), ("2dm", 3)]
     for g, nmax in grids:
         for metric in METRICS:
@@ -66,7 +68,7 @@ def shards(tier, seed):
             for kind in ("rad", "knn"):
                 for ln in lps:
                     for n in range(1, nmax + 1):
-                        if tier == "thorough" and ln not in LP_QUICK and (g in ("2d9", "2dm") or n > 2):
+                        if ln not in LP_QUICK and (g in ("2d9", "2dm") or n > 2):
                             continue        # the randomised / further policies: short tuples on the small grids
                         firsts = range(len(GRIDS[g])) if (n == nmax and n >= 3 and g != "1d") else [None]
                         for first in firsts:     # the biggest tuples are split by their first point
@@ -207,12 +209,12 @@ def build(cfg, history):
     return mab
 
 
-def make_cfg(ln, kind, metric, param, p_vec, seed):
+def make_cfg(ln, kind, metric, param, p_vec, seed, n_jobs=1):
     if kind == "rad":
         np_ = ["Radius", {"radius": param, "metric": metric, "no_nhood_prob_of_arm": p_vec}]
     else:
         np_ = ["KNearest", {"k": param, "metric": metric}]
-    return {"arms": [1, 2], "lp": A.LPS[ln], "np": np_, "seed": seed, "n_jobs": 1, "backend": None}
+    return {"arms": [1, 2], "lp": A.LPS[ln], "np": np_, "seed": seed, "n_jobs": n_jobs, "backend": None}
 
 
 def judge(cfg, ln, kind, metric, param, thr, p_vec, hist_rows, comp, queries, one_by_one, acc=None, prefit=False):
@@ -274,7 +276,7 @@ def comps_for(n, tier):
 
 
 def run_shard(shard):
-    with sched.model():                       # n_jobs = 1: joblib runs the single task inline; the model does the same
+    with sched.model():                       # joblib model: one job runs inline, two jobs as isolated tasks
         return _run_shard(shard)
 
 
@@ -300,7 +302,9 @@ def _run_shard(shard):
                     # the empty-neighbourhood distribution alphabet rotates with the case index (all four values
                     # meet every radius and composition over the enumeration)
                     p_vec = NO_NHOOD[(ci + pi + sum(pts[0])) % 4] if kind == "rad" else None
-                    cfg = make_cfg(ln, kind, metric, param, p_vec, shard["seed"])
+                    # a third of the bandits partition their query batches over two jobs (joblib model, default
+                    # schedule): the neighbourhood of a row must not depend on the chunk it lands in
+                    cfg = make_cfg(ln, kind, metric, param, p_vec, shard["seed"], 2 if (ci + pi + len(pts)) % 3 == 1 else 1)
                     one = ci == 0 and pi == 0  # single-row queries once per stored set
                     prefit = (ci + pi + len(pts)) % 3 == 0
                     msgs, history = judge(cfg, ln, kind, metric, param, thr, p_vec, hist_rows, comp, qgrid, one, acc, prefit)
